@@ -243,7 +243,7 @@ func VerifH_C13_success() {
 }
 
 // VerifH_C16_bucket_bound: the per-host limiter table never exceeds its configured bound, whatever hosts arrive in
-// whatever order and however often each was used (non-empty host names, usage counts below 2^31-1: stated bounds).
+// whatever order, however often each was used and whatever failure state its bucket carries (non-empty host names, usage counts below 2^31-1: stated bounds).
 func VerifH_C16_bucket_bound() {
 	verifrt.MapOrderAll(true)
 	max := 1 + verifrt.Choice("max-buckets-1", 2)
@@ -253,7 +253,18 @@ func VerifH_C16_bucket_bound() {
 	pre := verifrt.Choice("entries", max+1)
 	for i := 0; i < pre; i++ {
 		uc := int(verifrt.IntRange("usage", 1, 1000))
-		bm.buckets[hosts[i]] = &managedBucket{bucket: newTokenBucket(2, 1), usageCount: uc}
+		tb := newTokenBucket(2, 1)
+		if verifrt.Choice("host-is-failing", 2) == 1 {
+			// the host answered 429 or 5xx before: a streak, a lowered rate, possibly a running penalty
+			tb.failureCount = 1 + verifrt.Choice("streak-1", 2)
+			tb.refillRate = 0.5
+			tb.tokens = 0
+			if verifrt.Choice("penalty-running", 2) == 1 {
+				tb.penaltyUntil = tb.lastRefill.Add(30 * time.Second)
+			}
+			verifrt.Cover("failing-host-in-table")
+		}
+		bm.buckets[hosts[i]] = &managedBucket{bucket: tb, usageCount: uc}
 	}
 	for step := 0; step < 2; step++ {
 		h := hosts[verifrt.Choice("host", len(hosts))]
